@@ -103,7 +103,7 @@ def stateful_sweep(run, pid, prefixes, escalate):
     # (linear model?, editing threshold, symbols declared with sympy assumptions?)
     # (linear model?, editing threshold, symbols with sympy assumptions?, scale of prior and sensor noise)
     # (linear model?, editing threshold, symbols with sympy assumptions?, scale of prior and sensor noise, |.| terms on plain symbols?)
-    variants = [(True, 3.0, False, None, False), (False, 3.0, True, None, False), (False, None, False, 1e-9, False), (False, 3.0, False, None, True)] + ([(True, None, True, None, False), (False, 0.5, False, None, False), (False, 3.0, False, 1e-9, False), (False, None, False, None, True)] if escalate else [])
+    variants = [(True, 3.0, False, None, False), (False, 3.0, True, None, False), (False, None, False, 1e-12, False), (False, 3.0, False, None, True)] + ([(True, None, True, None, False), (False, 0.5, False, None, False), (False, 3.0, False, 1e-9, False), (False, None, False, 1e-9, False), (False, None, False, None, True)] if escalate else [])
     fails = 0
     for linear, k_edit, assume, scale, magnitude in variants:
         run.native_runs += 1
